@@ -29,7 +29,7 @@ uint64_t random_uint64()
     {
         static std::mt19937_64 seeded(verif::zobrist_seed.load());
         const uint64_t mask = verif::zobrist_mask.load();
-        return mask != 0 ? (seeded() & mask) : seeded();
+        return mask != 0 ? ((seeded() & mask) | (verif::zobrist_fill.load() & ~mask)) : seeded();
     }
 #endif
     static std::random_device rd;
